@@ -24,8 +24,13 @@ type Case struct {
 	// 3 / 4 Logger.Print / Printf (Debug, no fields); 5 Logger.Println (the same, for a message that ends in the newline
 	// Println adds).  See EntryUsed.
 	Entry int
-	// Root: 0 New(w); 1 Nop().Output(w) - Disabled from the start, a descendant is re-enabled by Level() (Step.Mute)
+	// Root: 0 New(w); 1 Nop().Output(w) - Disabled from the start, a descendant is re-enabled by Level() (Step.Mute);
+	// 2 New(nil) - no writer from the start, a descendant is given the writer by Output(w) (Step.Out)
 	Root int
+	// NoWriter: the event is logged through the chain's last logger also when that one has no writer (New(nil) /
+	// Output(nil), Step.Out): it is an enabled event - built, its hooks run - whose bytes go to io.Discard.  There is
+	// no line to observe then; the monitors judge the hooks.
+	NoWriter bool
 }
 
 type Gen struct {
